@@ -343,7 +343,7 @@ def main(ctx):
                 "and executed in parallel; distinct by module text")
     nb = 32 if ctx.quick else 160
     jobs = [{"seed": ctx.rng("b", i).random(),
-             "count": 6 if ctx.quick else 30,
+             "count": 4 if ctx.quick else 30,
              "ninputs": 3 if ctx.quick else 6,
              "emulations": 6 if ctx.quick else 20} for i in range(nb)]
     for res in ctx.pmap("vf.checks.c09", "batch", jobs, timeout=3400):
